@@ -3,12 +3,12 @@ package e2
 import (
 	"encoding/json"
 	"fmt"
+	"math/big"
 	"net/http"
 	"net/url"
 	"regexp"
 	"sort"
 	"strings"
-	"math/big"
 	"testing"
 	"time"
 
@@ -432,7 +432,7 @@ func TestC37(t *testing.T) {
 		for _, q := range tpls {
 			for b := 0; b < 2; b++ {
 				// ---- bindings
-				vals := map[string]any{}    // what the reference substitutes (defaults included)
+				vals := map[string]any{}     // what the reference substitutes (defaults included)
 				callVars := map[string]any{} // what the request carries
 				names := make([]string, 0, len(q.Vars))
 				for name := range q.Vars {
